@@ -189,6 +189,7 @@ func (env *specEnv) eval(e *SExpr) sval {
 		if m.typ != nil {
 			if mt, ok := m.typ.Underlying().(*types.Map); ok {
 				dom, _, _ := fv.mapKeys(mt)
+				fv.instFrames(dom, m.t)
 				return boolVal(smt.And(smt.Ne(m.t, smt.IntLit(0)), smt.Select(smt.Select(fv.heapGet(env.cur, dom), m.t), k.t)))
 			}
 		}
@@ -375,9 +376,11 @@ func (env *specEnv) evalIndex(e *SExpr) sval {
 		switch u := a.typ.Underlying().(type) {
 		case *types.Map:
 			_, val, _ := fv.mapKeys(u)
+			fv.instFrames(val, a.t)
 			return sval{smt.Select(smt.Select(fv.heapGet(env.cur, val), a.t), i.t), u.Elem()}
 		case *types.Slice:
 			key := fv.memKey(u.Elem())
+			fv.instFrames(key, slArr(a.t))
 			return sval{smt.Select(smt.Select(fv.heapGet(env.cur, key), slArr(a.t)), smt.Add(slOff(a.t), i.t)), u.Elem()}
 		case *types.Array:
 			return sval{smt.Select(a.t, i.t), u.Elem()}
@@ -411,6 +414,15 @@ func (env *specEnv) evalCall(e *SExpr) sval {
 		n := *env
 		n.cur = env.old
 		return n.eval(args[0])
+	case "locked":
+		// state right after the (last) lock acquisition of this function: the
+		// linearisation pre-state under the monitor model
+		if fv.lockSnap == nil {
+			env.fail(e, "locked() used but no lock with declared ownership was acquired")
+		}
+		n := *env
+		n.cur = fv.lockSnap
+		return n.eval(args[0])
 	case "len", "cap":
 		v := env.eval(args[0])
 		if v.typ != nil {
@@ -422,6 +434,7 @@ func (env *specEnv) evalCall(e *SExpr) sval {
 				return mathVal(slCap(v.t))
 			case *types.Map:
 				_, _, ln := fv.mapKeys(u)
+				fv.instFrames(ln, v.t)
 				return mathVal(smt.Ite(smt.Eq(v.t, smt.IntLit(0)), smt.IntLit(0), smt.Select(fv.heapGet(env.cur, ln), v.t)))
 			case *types.Array:
 				return mathVal(smt.IntLit(u.Len()))
@@ -437,6 +450,7 @@ func (env *specEnv) evalCall(e *SExpr) sval {
 		v := env.eval(args[0])
 		mt := v.typ.Underlying().(*types.Map)
 		_, _, ln := fv.mapKeys(mt)
+		fv.instFrames(ln, v.t)
 		return mathVal(smt.Select(fv.heapGet(env.cur, ln), v.t))
 	case "dom", "vals":
 		v := env.eval(args[0])
@@ -445,6 +459,8 @@ func (env *specEnv) evalCall(e *SExpr) sval {
 			env.fail(e, "%s of non-map", name)
 		}
 		dom, val, _ := fv.mapKeys(mt)
+		fv.instFrames(dom, v.t)
+		fv.instFrames(val, v.t)
 		if name == "dom" {
 			return sval{smt.Select(fv.heapGet(env.cur, dom), v.t), nil}
 		}
@@ -457,6 +473,7 @@ func (env *specEnv) evalCall(e *SExpr) sval {
 			env.fail(e, "elems of non-slice")
 		}
 		key := fv.memKey(sl.Elem())
+		fv.instFrames(key, slArr(v.t))
 		return sval{smt.Select(fv.heapGet(env.cur, key), slArr(v.t)), nil}
 	case "off":
 		return mathVal(slOff(env.eval(args[0]).t))
@@ -467,12 +484,15 @@ func (env *specEnv) evalCall(e *SExpr) sval {
 		return sval{smt.Ite(c, a.t, b.t), a.typ}
 	case "bigval":
 		v := env.eval(args[0])
+		fv.instFrames(fv.bigKey("val"), v.t)
 		return mathVal(smt.Select(fv.heapGet(env.cur, fv.bigKey("val")), v.t))
 	case "bit":
 		v, i := env.eval(args[0]), env.eval(args[1])
+		fv.instFrames(fv.bigKey("bits"), v.t)
 		return boolVal(smt.Select(smt.Select(fv.heapGet(env.cur, fv.bigKey("bits")), v.t), i.t))
 	case "bits":
 		v := env.eval(args[0])
+		fv.instFrames(fv.bigKey("bits"), v.t)
 		return sval{smt.Select(fv.heapGet(env.cur, fv.bigKey("bits")), v.t), nil}
 	case "isErr":
 		// isErr(err, Sentinel): errors.Is
@@ -620,6 +640,9 @@ func (s *sorts) validNoFrontier(v smt.Term, t types.Type) smt.Term {
 	if _, ok := t.Underlying().(*types.Struct); ok {
 		return smt.True
 	}
+	if isString(t) {
+		return smt.True
+	}
 	return s.valid(v, t, smt.IntLit(0))
 }
 
@@ -633,6 +656,8 @@ func resultNames(sig *types.Signature) []string {
 		switch {
 		case r.Name() != "" && r.Name() != "_":
 			names[i] = r.Name()
+		case n == 1 && r.Type().String() == "error":
+			names[i] = "err"
 		case n == 1:
 			names[i] = "result"
 		case i == n-1 && r.Type().String() == "error":
@@ -809,13 +834,11 @@ func (fv *funcVerifier) checkFrame(exit *State, env *specEnv) {
 	entryEnv.cur = fv.entry
 	tgts := entryEnv.modTargets(fv.spec.Modifies)
 	r := smt.Term{S: "fr_r", Sort: smt.Int}
-	keys := map[string]bool{}
-	for k := range exit.heap {
-		keys[k] = true
-	}
 	var ks []string
-	for k := range keys {
-		ks = append(ks, k)
+	for k, so := range fv.heapSorts {
+		if strings.HasPrefix(so, "(Array Int ") {
+			ks = append(ks, k)
+		}
 	}
 	sortStrings(ks)
 	// referents that may change: maps/slices/bigs reachable from modified fields (entry values)
@@ -862,9 +885,6 @@ func (fv *funcVerifier) checkFrame(exit *State, env *specEnv) {
 			smt.Eq(smt.Select(now, r), smt.Select(was, r))))
 		fv.assert(exit, "frame", k, fv.fi.Decl.End(), goal)
 	}
-	if exit.base != fv.entry.base {
-		fv.assert(exit, "frame", "whole-heap-havocked-by-uncontracted-callee", fv.fi.Decl.End(), smt.False)
-	}
 }
 
 func sortStrings(s []string) {
@@ -880,18 +900,23 @@ func sortStrings(s []string) {
 func (fv *funcVerifier) loopEnv(st *State) *specEnv {
 	env := fv.ownEnv(st)
 	// locals visible by name (innermost wins is not tracked: names are expected unique per function)
-	for v, t := range st.vars {
+	// same-named variables: the one declared last (innermost / most recent scope) wins
+	best := map[string]*types.Var{}
+	for v := range st.vars {
 		if v.Name() == "" || v.Name() == "_" {
 			continue
 		}
-		if _, isParam := env.vars[v.Name()]; isParam && !fv.isParam(v) {
-			continue
+		if b, ok := best[v.Name()]; !ok || v.Pos() > b.Pos() {
+			best[v.Name()] = v
 		}
+	}
+	for name, v := range best {
+		t := st.vars[v]
 		val := t
 		if fv.boxed[v] {
 			val = fv.loadAt(st, t, v.Type())
 		}
-		env.vars[v.Name()] = sval{val, v.Type()}
+		env.vars[name] = sval{val, v.Type()}
 	}
 	// parameters inside loops denote their current values; entry values via old()
 	return env
@@ -1029,6 +1054,7 @@ func (fv *funcVerifier) lockSpecOp(st *State, mu ast.Expr, acquire bool, call *a
 		for _, inv := range ts.Invs {
 			fv.assume(st, env.evalInv(self, inv.E))
 		}
+		fv.lockSnap = st.clone()
 		return true
 	}
 	env := &specEnv{fv: fv, cur: st, old: fv.entry, vars: map[string]sval{}, pkg: n.Obj().Pkg()}
